@@ -214,6 +214,25 @@ PROPS['C02']['assumptions'] = PROPS['C02']['assumptions'] + [
     'Tree::remove_child / merge_child_with_parent appear only in the branch proved unreachable here; their contracts are discharged in unit tree_graph (C12)',
 ]
 
+PROPS['C08'].update({
+    'level': 'other',
+    'units': ['pwl_reduce'],
+    'technique': 'Verus contracts on the extracted text of AffTree::<2>::reduce (src/pwl/impl_reduction.rs) and of PartialEq for AffFuncBase, through the contracts of Tree::remove_child / merge_child_with_parent: forall trees, forall x: tree_fn(after, x) == tree_fn(before, x) + bounded replay (bc reduce) for idempotence and completeness of the merging',
+    'level_text': ('Mixed. PROVED modulo "f64 = reals" (Verus, every well-formed binary tree of any shape / index layout, every input): reduce leaves a well-formed tree with the same root and input dimension that denotes '
+                   'the same partial function (same_denotation: tree_fn(after, x) == tree_fn(before, x) for every x, undefinedness included), whose nodes are a subset of the old ones with unchanged indices '
+                   '(never grows), and it never reaches the unwrap / assert panics of remove_child and merge_child_with_parent; AffFunc == compares shape, matrix and bias. The proof does not depend on the '
+                   'order of the breadth-first list (left unspecified), each merge is justified on its own: a decision with one row whose two children are terminals with equal functions denotes that function. '
+                   'BOUNDED only (bc reduce): idempotence, "no decision below the root keeps two identical terminal children", decisions with differing children are kept (these depend on the visiting order), '
+                   'and equality under non-standard memory layouts.'),
+    'design_ref': 'DESIGN.md §4 C08',
+    'assumptions': ASSUME_COMMON + ASSUME_SLAB + ASSUME_ND + ASSUME_PWL + ASSUME_BC + [
+        'rule I11: `Vec::from_iter(Bfs::iter(&tree, root))` and `elements.reverse()` are trusted helpers WITHOUT any postcondition (the proved clauses hold for an arbitrary work list); `for value in elements.into_iter()` is the index loop over that vector',
+        'rule I6c: `node.children_iter().count()` is the verified helper count_some(&node.children)',
+        'ndarray `==` on arrays is assumed to be "same shape and same elements" with f64 equality read as equality of reals (NaN excluded)',
+        'reduce is verified under the precondition arena size <= i32::MAX inherited from remove_child (its deletion counter)',
+    ],
+})
+
 PROPS['C17'].update({
     'level': 'other',
     'units': ['pwl_schemas'],
